@@ -123,7 +123,7 @@ package connect
 //@   trigger noPctBefore(s, k)
 
 //@ func grpcPercentDecode(bufferPool, encoded) res
-//@   tags C18, C02
+//@   tags C18, C02, C06
 //@   requires bufferPool != nil
 //@   use pdec_prefix
 //@   ensures res == pdec(encoded, 0)                               // label: decodes
@@ -132,7 +132,7 @@ package connect
 //@     decreases |encoded| - i
 
 //@ func grpcPercentDecodeSlow(bufferPool, encoded, offset) res
-//@   tags C18, C02
+//@   tags C18, C02, C06
 //@   requires bufferPool != nil && 0 <= offset && offset <= |encoded|
 //@   ensures res == encoded[:offset] ++ pdec(encoded, offset)      // label: decodes
 //@   loop 1:
@@ -231,14 +231,14 @@ package connect
 // ---------------------------------------------------------------------------
 
 //@ func (*grpcHandler).SetTimeout(g, request) (ctx, cancel, err)
-//@   tags C10, C07
+//@   tags C10, C07, C15
 //@   requires request != nil
 //@   ensures let h := hget(request.Header, "Grpc-Timeout") in gramT(h) && durT(h) <= 9223372036854775807 ==> err == nil && ctx == ctxWithTimeout(reqctx(request), durT(h))   // label: grammatical-honoured-exactly
 //@   ensures let h := hget(request.Header, "Grpc-Timeout") in h == "" || (gramT(h) && durT(h) > 9223372036854775807) ==> err == nil && ctx == reqctx(request) && cancel == nil   // label: absent-or-unrepresentable-is-unbounded
 //@   ensures let h := hget(request.Header, "Grpc-Timeout") in |h| >= 1 && (!isUnit(h[|h|-1]) || !isInt10(h[:|h|-1]) || (isNum10(h[:|h|-1]) && val10(h[:|h|-1]) > 99999999)) ==> err != nil && codeOf(err) == 3 && coded(err)   // label: malformed-is-invalid-argument
 
 //@ func (*connectHandler).SetTimeout(h, request) (ctx, cancel, err)
-//@   tags C10, C07
+//@   tags C10, C07, C15
 //@   requires request != nil
 //@   ensures let v := hget(request.Header, "Connect-Timeout-Ms") in v == "" ==> err == nil && ctx == reqctx(request) && cancel == nil    // label: absent-is-unbounded
 //@   ensures let v := hget(request.Header, "Connect-Timeout-Ms") in isNum10(v) && |v| <= 10 ==> err == nil && ctx == ctxWithTimeout(reqctx(request), val10(v) * 1000000)   // label: grammatical-honoured-exactly
@@ -1050,7 +1050,7 @@ package connect
 //@   ensures res != nil ==> asErr(res) == res                                                           // label: errors-are-coded
 //@   ensures res != errSpecialEnvelope ==> u.endStreamErr == old(u.endStreamErr)                        // label: end-stream-error-set-only-with-the-sentinel
 //@   ensures res == errSpecialEnvelope && u.endStreamErr != nil ==> u.endStreamErr.code != 0           // label: end-stream-error-has-a-non-zero-code   // tags: C06
-//@   ensures res == errSpecialEnvelope ==> u.trailer != nil && (forall k seq :: {mapdom(u.trailer, k)} mapdom(u.trailer, k) ==> canon(k) == k)   // label: end-stream-metadata-keys-are-canonical   // tags: C06, C11
+//@   ensures res == errSpecialEnvelope ==> u.trailer != nil && (forall k seq :: {mapdom(u.trailer, k)} mapdom(u.trailer, k) ==> canon(k) == k)   // label: end-stream-metadata-keys-are-canonical   // tags: C05, C06, C11
 //@   loop 1:
 //@     invariant u.trailer != nil && (forall k seq :: {mapdom(u.trailer, k)} mapdom(u.trailer, k) ==> canon(k) == k)
 
@@ -1281,9 +1281,9 @@ package connect
 //@   ensures callres("negotiateCompression", 1, 2) != nil ==> !ok && called("handlerConnCloser.Close", 1)                 // label: failed-negotiation-closes-the-conn-with-the-error   // tags: C07, C08
 //@   ensures callres("negotiateCompression", 1, 2) == nil ==> ok && conn != nil                                            // label: successful-negotiation-yields-a-conn
 //@   assert@call(wrapHandlerConnWithCodedErrors#1): hdom(rwheader(responseWriter), "Content-Type") && hraw(rwheader(responseWriter), "Content-Type") == [hget(request.Header, "Content-Type")]   // label: content-type-echoes-the-request   // tags: C05
-//@   assert@call(wrapHandlerConnWithCodedErrors#1): typeis(arg0, "*connectStreamingHandlerConn") ==> (let c := cast(arg0, "*connectStreamingHandlerConn") in c.marshaler.envelopeWriter.compressMinBytes == h.protocolHandlerParams.CompressMinBytes && c.marshaler.envelopeWriter.writer == responseWriter && c.marshaler.envelopeWriter.bufferPool == h.protocolHandlerParams.BufferPool && c.unmarshaler.envelopeReader.readMaxBytes == h.protocolHandlerParams.ReadMaxBytes && c.unmarshaler.envelopeReader.reader == request.Body && c.unmarshaler.envelopeReader.bufferPool == h.protocolHandlerParams.BufferPool)   // label: streaming-conn-carries-the-handler's-limits-and-threshold   // tags: C08, C09
+//@   assert@call(wrapHandlerConnWithCodedErrors#1): typeis(arg0, "*connectStreamingHandlerConn") ==> (let c := cast(arg0, "*connectStreamingHandlerConn") in c.marshaler.envelopeWriter.compressMinBytes == h.protocolHandlerParams.CompressMinBytes && c.marshaler.envelopeWriter.writer == responseWriter && c.marshaler.envelopeWriter.bufferPool == h.protocolHandlerParams.BufferPool && c.unmarshaler.envelopeReader.readMaxBytes == h.protocolHandlerParams.ReadMaxBytes && c.unmarshaler.envelopeReader.reader == request.Body && c.unmarshaler.envelopeReader.bufferPool == h.protocolHandlerParams.BufferPool)   // label: streaming-conn-carries-the-handler's-limits-and-threshold   // tags: C07, C08, C09
 //@   assert@call(wrapHandlerConnWithCodedErrors#1): typeis(arg0, "*connectStreamingHandlerConn") && cast(arg0, "*connectStreamingHandlerConn").marshaler.envelopeWriter.compressionPool != nil ==> hdom(rwheader(responseWriter), "Connect-Content-Encoding") && hraw(rwheader(responseWriter), "Connect-Content-Encoding") == [callres("negotiateCompression", 1, 1)] && callres("negotiateCompression", 1, 1) != "identity"   // label: compressed-flag-only-with-an-encoding-header   // tags: C05, C08
-//@   assert@call(wrapHandlerConnWithCodedErrors#1): typeis(arg0, "*connectUnaryHandlerConn") ==> (let c := cast(arg0, "*connectUnaryHandlerConn") in c.marshaler.compressMinBytes == h.protocolHandlerParams.CompressMinBytes && c.unmarshaler.readMaxBytes == h.protocolHandlerParams.ReadMaxBytes && c.unmarshaler.reader == request.Body && c.marshaler.compressionName == callres("negotiateCompression", 1, 1))   // label: unary-conn-carries-the-handler's-limits-and-threshold   // tags: C08, C09
+//@   assert@call(wrapHandlerConnWithCodedErrors#1): typeis(arg0, "*connectUnaryHandlerConn") ==> (let c := cast(arg0, "*connectUnaryHandlerConn") in c.marshaler.compressMinBytes == h.protocolHandlerParams.CompressMinBytes && c.unmarshaler.readMaxBytes == h.protocolHandlerParams.ReadMaxBytes && c.unmarshaler.reader == request.Body && c.marshaler.compressionName == callres("negotiateCompression", 1, 1))   // label: unary-conn-carries-the-handler's-limits-and-threshold   // tags: C07, C08, C09
 
 //@ func (*grpcHandler).NewConn(g, responseWriter, request) (conn, ok)
 //@   tags C05, C07, C08, C09
@@ -1292,7 +1292,7 @@ package connect
 //@   ensures callres("negotiateCompression", 1, 2) != nil ==> !ok && called("handlerConnCloser.Close", 1)                 // label: failed-negotiation-closes-the-conn-with-the-error   // tags: C07, C08
 //@   ensures callres("negotiateCompression", 1, 2) == nil ==> ok && conn != nil                                            // label: successful-negotiation-yields-a-conn
 //@   assert@call(wrapHandlerConnWithCodedErrors#1): hdom(rwheader(responseWriter), "Content-Type") && hraw(rwheader(responseWriter), "Content-Type") == [hget(request.Header, "Content-Type")]   // label: content-type-echoes-the-request   // tags: C05
-//@   assert@call(wrapHandlerConnWithCodedErrors#1): let c := cast(arg0, "*grpcHandlerConn") in c.marshaler.envelopeWriter.compressMinBytes == g.protocolHandlerParams.CompressMinBytes && c.marshaler.envelopeWriter.writer == responseWriter && c.unmarshaler.envelopeReader.readMaxBytes == g.protocolHandlerParams.ReadMaxBytes && c.unmarshaler.envelopeReader.reader == request.Body && c.web == g.web && c.unmarshaler.web == g.web   // label: conn-carries-the-handler's-limits-and-threshold   // tags: C08, C09
+//@   assert@call(wrapHandlerConnWithCodedErrors#1): let c := cast(arg0, "*grpcHandlerConn") in c.marshaler.envelopeWriter.compressMinBytes == g.protocolHandlerParams.CompressMinBytes && c.marshaler.envelopeWriter.writer == responseWriter && c.unmarshaler.envelopeReader.readMaxBytes == g.protocolHandlerParams.ReadMaxBytes && c.unmarshaler.envelopeReader.reader == request.Body && c.web == g.web && c.unmarshaler.web == g.web   // label: conn-carries-the-handler's-limits-and-threshold   // tags: C07, C08, C09
 //@   assert@call(wrapHandlerConnWithCodedErrors#1): cast(arg0, "*grpcHandlerConn").marshaler.envelopeWriter.compressionPool != nil ==> hdom(rwheader(responseWriter), "Grpc-Encoding") && hraw(rwheader(responseWriter), "Grpc-Encoding") == [callres("negotiateCompression", 1, 1)] && callres("negotiateCompression", 1, 1) != "identity"   // label: compressed-flag-only-with-an-encoding-header   // tags: C05, C08
 
 // ---------------------------------------------------------------------------
@@ -1348,7 +1348,7 @@ package connect
 //@   ensures res == u.webTrailer
 
 //@ func (*grpcUnmarshaler).Unmarshal(u, message) res
-//@   tags C04, C06
+//@   tags C04, C06, C07
 //@   requires u != nil && u.envelopeReader.reader != nil && !pooled(u.envelopeReader.reader) && termerr(u.envelopeReader.reader) != errSpecialEnvelope && u.envelopeReader.bufferPool != nil && u.envelopeReader.codec != nil
 //@   assigns everything
 //@   ensures res == nil ==> old(completeFrame(u.envelopeReader, rest(u.envelopeReader.reader)) && (rest(u.envelopeReader.reader)[0] == 0 || rest(u.envelopeReader.reader)[0] == 1))   // label: a-message-only-from-a-complete-data-frame
